@@ -9,7 +9,7 @@ from . import common
 
 PROP = "C10"
 KQ = ("NL", "CE", "J", "CEE", "IND0")
-KT = KQ + ("W3", "CO", "NLI", "W0", "WT", "CD", "BL", "CEE", "IND3")
+KT = KQ + ('W3', 'CO')
 
 
 class Mon(drivers.Monitor):
